@@ -95,6 +95,16 @@ CLAIMED = {
                   "conversion closures use raw h5py inside `with` blocks and enter as assumed summaries; h5py compound datasets and "
                   "the crash model are assumptions; the resumability conclusion is argued over the proved clauses, not mechanised.",
              ref="7 C18"),
+ "C08": dict(text="Deductive proof of the tag-side computation for every rank, position / extent length and descriptor: the unit "
+                  "conversion (_scale_position per descriptor kind: factor = units.scaling when both units are given, 1 otherwise; "
+                  "IncompatibleDimensions exactly for unit-less / inconvertible / set-with-unit cases), the per-dimension region "
+                  "(_calc_data_slices, loop invariant over every dimension: start = position*k, end = start + extent*k, requested "
+                  "stop rule iff the extent is positive, exact position otherwise, entry = None iff the descriptor finds no sample, "
+                  "else slice(first, last+1); remaining dimensions whole), the inside-the-data decision (_slices_in_data), plus the "
+                  "descriptors' index_of / range_indices against the order-theoretic specification (shared with C07).",
+             note="Trusted: as C06/C07/C09 (h5py selection, floats as reals, numpy less_equal/all). Descriptors are abstract in "
+                  "_calc_data_slices (summaries of the three range_indices implementations, verified under C07). Tag.tagged_data, "
+                  "MultiTag row selection (_calc_data_slices_mtag) and feature_data dispatch are NOT under contract.", ref="7 C08"),
 }
 NA_REASON = "check not built yet in this round (design in DESIGN.md section 7); will be claimed once its contracts discharge"
 checks, na = [], []
